@@ -177,6 +177,58 @@ for (a, b) in pairs:
                               "impl": "release" if acc else r[2], "spec": "release" if want else "refuse"}})
         hist[("std" if b in SCHEMAS else b.split("@")[0])] = hist.get(("std" if b in SCHEMAS else b.split("@")[0]), 0) + 1
 
+# ---- the SKR the tools themselves produce: the periods the safety checks read are the configured KSK policy's, publish and retire each its own
+import ceremony
+import emu
+from kskm.misc.hsm import init_pkcs11_modules
+from kskm.signer import create_skr
+
+
+def tool_skr(req, schema, ps, rs):
+    cfg = ceremony.make_config({n: ceremony.ksk_def(k) for n, k in KSKS.items()}, {"s": {i: {k: v for k, v in a.items() if v} for i, a in schema.items()}},
+                               ksk_policy={"publish_safety": ksrxml.fmt_dur(ps), "retire_safety": ksrxml.fmt_dur(rs), "max_signature_validity": "P21D",
+                                           "min_signature_validity": "P21D", "max_validity_overlap": "P16D", "min_validity_overlap": "P9D", "ttl": 172800})
+    emu.install(ceremony.token_with(list(KSKS.values())))
+    p11 = init_pkcs11_modules(cfg)
+    return create_skr(skrgen.k_request(req), cfg.get_schema("s"), p11, cfg)
+
+
+DROP = {}
+for j in range(2, 7):
+    sj = {}
+    for i in range(1, 10):
+        sj[i] = ({"publish": ["ksk_current", "ksk_next"], "sign": ["ksk_next"], "revoke": []} if i < j
+                 else {"publish": ["ksk_next"], "sign": ["ksk_next"], "revoke": []})
+    DROP[j] = sj
+ALL.update({f"tool-drop@{j}": v for j, v in DROP.items()})
+for j, sj in DROP.items():
+    for ps, rs in ([(D(days=10), D(days=10)), (D(days=10), D(days=30)), (D(days=10), D(0)), (D(days=0), D(days=20)), (D(days=10), D(days=10 * (j - 1))),
+                    (D(days=10), D(days=10 * (j - 1)) - D(seconds=1)), (D(days=10), D(days=10 * (j - 2)))] if TIER != "quick" or j in (2, 4) else [(D(days=10), D(days=30))]):
+        base_pol = ksrxml.default_zsk_policy(publish_safety=D(days=10), retire_safety=D(days=10))
+        last = simulated("rollover+" if False else "publish+", "prev", T0, base_pol)
+        start = T0 + D(days=90)
+        req = make_req("new", start)
+        rt = vlib.run_impl(tool_skr, req, sj, ps, rs)
+        if rt[0] != "ok":
+            rep.violation("impl-vs-spec", f"create_skr failed ({rt[2]}) on a two-KSK schema", {"schema": f"tool-drop@{j}"})
+            continue
+        new_tool = rt[1]
+        new_ref = skrgen.simulate_skr(req, sj, KSKS, ksrxml.default_zsk_policy(publish_safety=ps, retire_safety=rs))
+        pol = RequestPolicy()
+        kl = skrgen.k_response(last)
+        r = vlib.run_impl(check_last_skr_and_new_skr, kl, new_tool, pol)
+        acc = r[0] == "ok"
+        accepts += acc
+        want = spec(pol, last, new_ref)
+        cases.append(f"({coq_reqpolicy(pol)}, {coq_response(kl, with_txt=False, with_pub=False)}, {coq_response(new_tool, with_txt=False, with_pub=False)}, "
+                     f"{'OK tt' if acc else f'Raise {r[1]}'})")
+        meta.append({"kind": "tool-made-skr", "spec_ok": acc == want, "key": None,
+                     "spec_msg": f"SKR made by create_skr under publish_safety={ps}, retire_safety={rs}: the safety checks {'release' if acc else 'refuse (' + r[2] + ')'} it "
+                                 f"but the documented rules with the configured periods say {'release' if want else 'refuse'}",
+                     "desc": {"prev_schema": "publish+", "new_schema": f"drops ksk_current at slot {j}", "publish_safety": str(ps), "retire_safety": str(rs),
+                              "impl": "release" if acc else r[2], "spec": "release" if want else "refuse"}})
+        hist["tool-made-skr"] = hist.get("tool-made-skr", 0) + 1
+
 ok_build, log = vlib.make(["Checks/C08Check.vo"])
 runner = vlib.CaseRun("C09", "main", "From KV Require Import Base.Prelude Base.Exn Model.Data Model.KsrPolicy Model.Chain Checks.C08Check.", "case9", "check9", shard=60)
 results = runner.run(cases) if ok_build else [-1] * len(cases)
